@@ -55,7 +55,7 @@ def run(pid, families, tier, seed, ev, maxout, extra=None):
         cases = [c for c in (extra or []) if c[1] == method] + cases
         kept = 0
         for (label, meth, stream, expected) in cases:
-            if len(expected) > maxout:
+            if len(expected) > maxout and not (label.startswith("overlap x ring seam") and len(expected) < 20000):
                 continue
             kept += 1
             path = os.path.join(sc, "c%d.bin" % len(jobs))
